@@ -215,3 +215,18 @@ Definition args_ok (args : list (string * list string)) (repo_sources : list str
   str_list_eqb (assoc_l args "groupByOriginAndSize") ["<bc.buildImage>"; "bc.ic.Layering.Budget"] &&
   negb (match repo_sources with [] => true | _ => false end) &&
   forallb (fun s => is_infix "Runtime" s && negb (is_infix "Build" s)) repo_sources.
+
+(* ---- who can see the layering block (Generated [c10_layering_readers] / [c10_layering_inspected]) ---- *)
+(* the primitive calls of the step lists: everything called that has no body in the lists *)
+Definition primitives (defs : fdefs) : list string :=
+  flat_map (fun d : string * list gcall =>
+    flat_map (fun gc : gcall =>
+      let n := snd gc in
+      if String.eqb n "return" || String.eqb n "fail" then []
+      else match find_def n defs with Some _ => [] | None => [n] end) (snd d)) defs.
+(* every primitive call was inspected, and the only one that may change the filesystem
+   and can see the layering block is WriteEtcApkoConfig *)
+Definition layering_ok (defs : fdefs) (readers inspected : list string) : bool :=
+  forallb (fun n => in_list n inspected) (primitives defs) &&
+  forallb (fun n => in_list n inspected) readers &&
+  str_list_eqb (filter mutating readers) ["bc.WriteEtcApkoConfig"].
